@@ -177,7 +177,7 @@ OodImage(f, d) ==
 \* description: [layers |-> sequence of [vals, paths] byte strings, rem, parts]
 FriOk(d) == /\ Len(d.layers) <= 255
             /\ \A i \in 1..Len(d.layers) : Len(d.layers[i].vals) >= 1    \* read_from refuses empty values
-            /\ Len(d.rem) <= 65535 /\ d.parts \in 0..255
+            /\ Len(d.rem) <= 65535 /\ d.parts \in 0..63   \* FriProof::new: a power-of-two partition count in usize
 RECURSIVE FriLayersBytes(_)
 FriLayersBytes(ls) == IF ls = <<>> THEN <<>>
                       ELSE LE(Len(Head(ls).vals), 4) \o Head(ls).vals \o LE(Len(Head(ls).paths), 4) \o Head(ls).paths
